@@ -124,4 +124,19 @@ TEXTS["C20"] = dict(
                "kills the worker, which the driver attributes to the seed written ahead of the run and confirms by replaying it in a fresh process.",
     level_note="An input-space property: no schedule is explored; the technique contributes process isolation, the canary and exact replay (DESIGN.md section 8). peers.Suitable is re-implemented, so "
                "its allocation of one slot per requested participant is not exercised. Resource exhaustion is reported only if the process dies in this sandbox.")
+TEXTS["C07"] = dict(
+    technique="seeded configuration and request generation against the real service stack with a reference permission evaluator written from the property text; state-unchanged check on the real store",
+    level_text="Seeded search over permission tables (ordered entries with literal / regular-expression wallet and account patterns incl. alternation, classes, own anchors, mixed case; ordered "
+               "operation lists with All/None/op/~op) and over requests (nine operation kinds incl. batch and multisign forms, by name or public key, wallet operations with trailing path "
+               "components, known / unknown / upper-cased / empty clients) on a real single-instance stack. Every operation that was carried out must be allowed by the reference evaluator "
+               "on the resolved wallet/account name, and every refusal must leave the slashing-protection export unchanged.",
+    level_note="The decision itself is a pure function of (table, request): the schedule dimension is vacuous (DESIGN.md section 8); the simulator supplies the stateful whole-system part. Trusted: Go regexp "
+               "(shared by code and reference; the reference differs in how a pattern is anchored, which is the property).")
+TEXTS["C18"] = dict(
+    technique="seeded configuration, population and path-list generation against the real lister with dynamic account creation; set-based soundness and completeness oracle from the reference evaluator",
+    level_text="Seeded search over permission tables (as C07, per account), requested path lists (1-3 paths: wallet only, wallet/regex, alternation, unknown, empty, malformed, other case) and "
+               "histories interleaving listings with account creation through Dirk. Soundness: every returned account exists, lies in a requested wallet, is accessible per the reference "
+               "evaluator and carries its own name and public key. Completeness: every accessible account whose name whole-matches a requested path is returned, including accounts created "
+               "after start-up. Compared as sets, never by order.",
+    level_note="Listing of accounts created by distributed key generation (composite and share keys) is checked in C12. Trusted: Go regexp.")
 NOT_APPLICABLE = {}
